@@ -5,10 +5,25 @@
 #define VERIF_SIM_CLOCK_H
 
 #include "common.h"
-#include <ace_time/clock/SystemClockLoop.h>
+#include <AceCommon.h>
+#include <ace_time/clock/Clock.h>
 #include <ace_time/testing/FakeClock.h>
+// Build variant "plain32" (-DSIM_ULONG32): the only AceTime headers that say `long` are the four clock
+// headers below, and on every Arduino target `unsigned long` is 32 bits wide while on this host it is 64
+// (no 32-bit multilib to link against). Compiling exactly these headers with `long` read as `int` gives
+// SystemClockLoop::loop() the target's 32-bit millisecond arithmetic, so that the 2^32 counter wrap is
+// executed, not just modelled. Every simulator TU includes this header before <AceTime.h>, so all TUs
+// agree on the class layouts. (Redefining a keyword is not ISO C++; clang does what one expects.)
+#ifdef SIM_ULONG32
+#define long int
+#endif
+#include <ace_time/clock/SystemClockLoop.h>
 #include <ace_time/testing/FakeMillis.h>
 #include <ace_time/testing/TestableSystemClockLoop.h>
+typedef unsigned long sim_ulong_t;   // AceTime's `unsigned long` as compiled in this variant
+#ifdef SIM_ULONG32
+#undef long
+#endif
 
 namespace sim {
 
@@ -136,7 +151,7 @@ class SimLoopClock : public ace_time::clock::SystemClockLoop {
       uint16_t sync, uint16_t init, uint16_t tmo, ace_time::testing::FakeMillis* fm,
       ace_common::TimingStats* ts)
       : SystemClockLoop(ref, bak, sync, init, tmo, ts), mFakeMillis(fm) {}
-  unsigned long clockMillis() const override { return mFakeMillis->millis(); }
+  sim_ulong_t clockMillis() const override { return mFakeMillis->millis(); }
  private:
   ace_time::testing::FakeMillis* mFakeMillis;
 };
@@ -323,7 +338,7 @@ class ClockDevice {
  private:
   void build();
   void destroy();
-  void setMillis() { fm.millis(opts.wrap32 ? (unsigned long)(uint32_t)(boot + t) : (unsigned long)(boot + t)); }
+  void setMillis() { fm.millis(opts.wrap32 ? (sim_ulong_t)(uint32_t)(boot + t) : (sim_ulong_t)(boot + t)); }
   acetime_t probe(int opIndex, Verdict& v, const char* where);
   void doLoop(int opIndex, Verdict& v, Coverage& cov);
   void doSet(acetime_t val, int opIndex, Verdict& v, Coverage& cov, const char* kind);
